@@ -43,6 +43,10 @@ macro_rules! cm_ops {
                 }
             }
             8 => vec![slots[slot].as_ref().unwrap().total_weight() as i128],
+            11 => {
+                let s = slots[slot].as_ref().unwrap();
+                vec![s.lower_bound(a[1] as i64) as i128, s.upper_bound(a[1] as i64) as i128]
+            }
             10 => {
                 let bytes = slots[slot].as_ref().unwrap().serialize();
                 match CountMinSketch::<$t>::deserialize_with_seed(&bytes, seed) {
